@@ -89,6 +89,9 @@ func genScript(r *rand.Rand, n int) (*c05Script, refmodel.Table) {
 				optsFor[key] = o
 			}
 			d = refmodel.Def{Cmd: "add", Service: svc, Src: w, Dst: c05Spell(r, dst), Weight: choose(r, c05Weights), Tags: subset(r, c05Tags, 3), Opts: optsFor[key]}
+			if len(d.Tags) == 0 && r.Intn(6) == 0 {
+				d.BlankTags = choose(r, []string{" ", "  ", "\u00a0"}) // a quoted list of white space: no tags
+			}
 		case k < 8:
 			d = refmodel.Def{Cmd: "del"}
 			switch r.Intn(5) {
@@ -171,7 +174,30 @@ func c05Model(c *ctx) {
 			c.R.Count("scripts_with_matched_negative_route_weight", 1)
 		}
 		c05CheckModel(c, s.Lines, m)
+		if i%40 == 0 {
+			c05OddTarget(c, r, s.Lines)
+		}
 	})
+}
+
+// c05OddTarget: an add whose target is a string the URL parser maps to nothing ('#') or to something that is not
+// rendered the way it was written, put into an otherwise well-formed script. Whether such a command is accepted is
+// not fixed by the statement; if the script is accepted, the text rendering of the table must be accepted again.
+func c05OddTarget(c *ctx, r *rand.Rand, lines []string) {
+	odd := fmt.Sprintf("route add %s %s%s %s", choose(r, c05Services), choose(r, c05Hosts), choose(r, c05Paths), choose(r, []string{"#", "#frag", "?", "?#", "//", "http://", "x"}))
+	at := r.Intn(len(lines) + 1)
+	all := append(append(append([]string{}, lines[:at]...), odd), lines[at:]...)
+	c.R.Eval(1)
+	t, err := newTable(strings.Join(all, "\n"))
+	if err != nil {
+		c.R.Count("odd_target_scripts_rejected", 1)
+		return
+	}
+	c.R.Count("odd_target_scripts_accepted", 1)
+	txt := t.String()
+	if _, err := newTable(txt); err != nil {
+		c.R.Violate("c05:roundtrip:rejected:odd-target", fmt.Sprintf("a script holding %q is accepted but the rendering of its table is not: %v\n%s", odd, err, txt), map[string]any{"Lines": all})
+	}
 }
 
 func c05Check(c *ctx, _ any, lines []string) {
@@ -289,8 +315,12 @@ func parseOwn(l string) (refmodel.Def, bool) {
 		return "", false
 	}
 	if v, ok := take("tags"); ok {
-		for _, t := range strings.Split(v, ",") {
-			d.Tags = append(d.Tags, t)
+		if strings.TrimSpace(v) == "" {
+			d.BlankTags = v
+		} else {
+			for _, t := range strings.Split(v, ",") {
+				d.Tags = append(d.Tags, t)
+			}
 		}
 	}
 	if v, ok := take("opts"); ok {
